@@ -32,6 +32,7 @@ static INST_COUNTER: AtomicUsize = AtomicUsize::new(0);
 const CALL_TIMEOUT: Duration = Duration::from_secs(5);
 const HANG_TIMEOUT: Duration = Duration::from_secs(60);
 static SLOW: AtomicUsize = AtomicUsize::new(0);
+static START_RETRIES: AtomicUsize = AtomicUsize::new(0);
 const WORK: &str = "/verif/work/C14";
 const PROBE_NS: &str = "c14probe { Probe { name: String } }";
 
@@ -47,9 +48,28 @@ impl Inst {
         let _ = std::fs::remove_dir_all(&path);
         std::fs::create_dir_all(&path).unwrap();
         let full = format!("{}\n{}", model, PROBE_NS);
-        let (app, vk, _) = GraphDatabaseService::start("c14", &full, &random32(), &random32(), path.clone(), &Configuration::default(), EventService::new())
-            .await.unwrap_or_else(|e| panic!("instance does not start with model {}: {}", full, e));
-        app.mutate(r#"mutate { c14probe.Probe { name: "probe-row" } }"#, None).await.expect("probe row");
+        // DatabaseReader::start unwraps the opening of each reader connection ("random IO errors" when
+        // connections are created rapidly, says the code): under machine load a start can panic.
+        // Run it in its own task and retry, so that such a start does not take the harness down.
+        let mut attempt = 0;
+        let (app, vk) = loop {
+            attempt += 1;
+            let (f, pth) = (full.clone(), path.clone());
+            let r = tokio::spawn(async move { GraphDatabaseService::start("c14", &f, &random32(), &random32(), pth, &Configuration::default(), EventService::new()).await }).await;
+            match r {
+                Ok(Ok((app, vk, _))) => break (app, vk),
+                Ok(Err(e)) if attempt >= 4 => panic!("instance does not start with model {}: {}", full, e),
+                Err(e) if attempt >= 4 => panic!("instance start panicked 4 times: {}", e),
+                _ => { START_RETRIES.fetch_add(1, Ordering::SeqCst); let _ = std::fs::remove_dir_all(&path); std::fs::create_dir_all(&path).unwrap(); tokio::time::sleep(Duration::from_millis(300)).await; }
+            }
+        };
+        let mut tries = 0;
+        while let Err(e) = app.mutate(r#"mutate { c14probe.Probe { name: "probe-row" } }"#, None).await {
+            tries += 1;
+            if tries >= 4 { panic!("probe row cannot be written: {}", e); }
+            START_RETRIES.fetch_add(1, Ordering::SeqCst);
+            tokio::time::sleep(Duration::from_millis(300)).await;
+        }
         Inst { app, path, vk, healthy: true }
     }
     /// the fixed probe: a query through the database task and a reader thread (+ a write when `full`)
@@ -388,7 +408,7 @@ async fn main() {
     std::panic::set_hook(Box::new(|info| {
         PANICS.fetch_add(1, Ordering::SeqCst);
         *LAST_PANIC.lock().unwrap() = info.to_string().replace('\n', " ").chars().take(200).collect();
-        if info.location().map(|l| l.file().contains("/verif/harness") || l.file().starts_with("src/")).unwrap_or(false) { eprintln!("harness panic: {}", info); }
+        if std::thread::current().name() == Some("main") || info.location().map(|l| l.file().contains("/verif/harness") || l.file().starts_with("src/")).unwrap_or(false) { eprintln!("harness panic: {}", info); }
     }));
     let _ = std::fs::remove_dir_all(WORK.to_string() + "/inst_tmp");
     std::fs::create_dir_all(WORK).unwrap();
@@ -516,6 +536,7 @@ async fn main() {
     observed_streams(&mut rng, &mut out, &mut stats).await;
 
     stats.insert("answers_slower_than_5s".into(), json!(SLOW.load(Ordering::SeqCst)));
+    stats.insert("instance_starts_retried".into(), json!(START_RETRIES.load(Ordering::SeqCst)));
     eprintln!("c14 generator: {}", serde_json::Value::Object(stats.clone()));
     out.push(Case { kind: "stats".into(), coq: "CObs 0%N".into(), obs: vec![0, 1], meta: serde_json::Value::Object(stats) });
     out.finish();
